@@ -340,6 +340,13 @@ def run_property(prop, jobs, tier, seed, meta, workers=None, level="model_checki
             print(f"COVERAGE-NOTE property={prop} job={r['name']} reached {n} obligations, baseline {b}: "
                   f"inconclusive for the paths that no longer reach the oracle")
 
+    # paths whose path condition turned out unsatisfiable at the end discharge everything vacuously: they count for nothing
+    vac = [(r["name"], (r.get("counts") or {}).get("unreach", 0), r.get("paths", 0)) for r in results
+           if (r.get("counts") or {}).get("unreach", 0)]
+    for name, nv, npaths in vac:
+        print(f"COVERAGE-NOTE property={prop} job={name} {nv} of {npaths} path(s) ended with an unsatisfiable path condition "
+              f"(vacuous: nothing is claimed for them)")
+
     undis = tot["obligations"] - tot["discharged"]
     coverage = dict(
         states=max(tot["paths"], 0), transitions=tot["transitions"],
